@@ -1,5 +1,5 @@
 (* Consequences of CompactProofs + CompactSpec used by props/C04.v. *)
-Require Import Scale.Bytes Scale.Eres Scale.Prog Scale.ProgFacts Scale.CompactImpl Scale.CompactSpec Scale.CompactProofs.
+Require Import Scale.Bytes Scale.Eres Scale.Prog Scale.ProgFacts Scale.ProgMore Scale.CompactImpl Scale.CompactSpec Scale.CompactProofs.
 
 Lemma okwidth_bits B : okwidth B -> 8 <= 8 * B /\ 8 * B <= 536.
 Proof. intros [->|[->|[->|[->| ->]]]]; lia. Qed.
